@@ -1197,6 +1197,31 @@ def rule_R4(ctx, repo):
             else:
                 ctx.violation("R4", key, "no guard rejects a window longer than the available history: window start %r can be negative "
                               "(the series is silently truncated by the >= 0 filter)" % train.lo, loc)
+    # an in-sample horizon does not excuse a cutoff beyond the series: the training window must still lie inside y
+    try:
+        from ..absint import Interp as _I, FHV as _FHV
+        from ..lin import Facts as _Facts
+        cls_c = repo.cls(SPLIT + ":CutoffSplitter")
+        it_c = _I(repo, scenario={"fh.is_all_out_of_sample": False, "fh.is_all_in_sample": True}, hooks=c01.hooks,
+                  no_inline=("_check_y", "check_fh", "check_time_index", "_repr"))
+        it_c.index_loops = True
+        f_in = _Facts()
+        f_in.add_cmp(c01.FHL, "<=", 0, "horizon is in-sample (quantifier of this scenario)")
+        f_in.add_cmp(c01.FH0, "<=", c01.FHL, "horizon is sorted")
+        f_in.add_cmp(N, ">=", 1, "series is non-empty")
+        self_c = c01.construct(repo, it_c, cls_c, {"cutoffs": Vec("cutoffs", 0, False), "fh": FHV_, "window_length": W})
+        _tr, fst_c, _k = c01.run_method(repo, it_c, self_c, "_split", {"y": Arr("y", N, "index")}, f_in)
+        for i, rec in enumerate(fst_c.yields):
+            train, test = c01.split_parts(rec.value)
+            key = "CutoffSplitter[in-sample fh]:yield%d:cutoff-inside-series" % i
+            loc = "%s:%s" % (cls_c.module.relpath, rec.node.lineno)
+            if not isinstance(train, Rng):
+                ctx.info("R4 %s: training window not interpretable (%r)" % (key, train))
+                continue
+            c01.prove_le(ctx, "R4", key, rec.facts, train.hi - 1, N - 1,
+                         "a cutoff at or beyond the end of the series is rejected also for in-sample horizons", loc)
+    except AnalysisError as e:
+        ctx.info("R4 CutoffSplitter[in-sample fh]: scenario not interpretable (%s)" % e)
     # exactness of the splitters' feasibility guards (no feasible window rejected, no infeasible one accepted) is C01-R3:
     # run those obligations and report them here (valid settings that differ only in the offending aspect are accepted)
     from ..report import Ctx as _Ctx, VIOLATION as _V, UNDECIDED as _U
